@@ -1039,6 +1039,23 @@ def judge(case, impl, model):
                                 f"model expects {want_n}")
                     break
 
+    # -- canon_schema (Python) is the mirror of Schema.ofJson / Schema.toJson (Lean): same canonical schema
+    if model.get("canon") is not None:
+        try:
+            mine = norm_schema(canon_schema(schema))
+            theirs = norm_schema(unwire_schema(model["canon"]))
+            if strip_nonpositional_addl(mine) != strip_nonpositional_addl(theirs):
+                msgs.append("canonical form of the schema: Python mirror " + json.dumps(mine, ensure_ascii=False)[:300]
+                            + " Lean AST " + json.dumps(theirs, ensure_ascii=False)[:300])
+            for (n, d), (n2, d2) in zip(case["defs"], model.get("canonDefs", [])):
+                a, b = norm_schema(canon_schema(d)), norm_schema(unwire_schema(d2))
+                if n != n2 or strip_nonpositional_addl(a) != strip_nonpositional_addl(b):
+                    msgs.append(f"canonical form of definition {n}: Python mirror " + json.dumps(a, ensure_ascii=False)[:300]
+                                + " Lean AST " + json.dumps(b, ensure_ascii=False)[:300])
+                    break
+        except Exception as e:      # a schema outside the AST is reported by the driver already
+            msgs.append(f"canonical form comparison failed: {type(e).__name__}: {e}"[:200])
+
     # -- the emitted TEXT: the model prints what the real generator prints for the canonical schema
     if model.get("oracleOk") is False:
         msgs.append("repr(float) oracle answer is not a decimal literal of the recogniser's subset")
